@@ -9,7 +9,7 @@ open Kopf Kopf.J
 
 /-- if the values at some path differ (not `≈`), the whole-object diff is non-empty. -/
 theorem change_detected_at {e e' : J} (p : Path) (hw : wf e = true) (hw' : wf e' = true)
-    (hne : ¬ pyEq (dropNulls (resolveD e p)) (dropNulls (resolveD e' p)) = true) : diff e e' [] ≠ [] := by
+    (hne : ¬ same (dropNulls (resolveD e p)) (dropNulls (resolveD e' p)) = true) : diff e e' [] ≠ [] := by
   intro hnil
   have hr := reduce_diff p e e' hw hw'
   rw [hnil, reduce_nil] at hr
